@@ -89,6 +89,10 @@ func (s *Solver) start() error {
 	}
 	s.in = in
 	s.out = bufio.NewReaderSize(out, 1<<16)
+	if d := os.Getenv("VERIF_SOLVERLOG"); d != "" {
+		f, _ := os.Create(fmt.Sprintf("%s/%s-%d.smt2", d, s.kind, time.Now().UnixNano()))
+		s.log = f
+	}
 	s.defined = map[int]bool{}
 	s.declUF = map[string]bool{}
 	s.dead = false
@@ -194,7 +198,9 @@ func (s *Solver) Check(assertions []*Term, wantModel []*Term) (Result, map[int]*
 		}
 	}()
 	var sb strings.Builder
-	if len(s.defined) > resetAfter {
+	if len(s.defined) > resetAfter || (strings.HasPrefix(s.kind, "cvc5") && len(s.defined) > 0) {
+		// cvc5's incremental mode degrades badly with int-blasting (queries that take 0.02 s fresh
+		// come back unknown after a few dozen earlier push/pops): every cvc5 query starts from (reset)
 		// solvers slow down as global definitions pile up: start a fresh context
 		sb.WriteString("(reset)\n")
 		if strings.HasPrefix(s.kind, "cvc5") {
